@@ -114,8 +114,13 @@ func (e *Engine) valEq(st *State, a, b Value) *Term {
 		}
 		return r
 	case Slice:
-		y := b.(Slice)
+		y, ok := b.(Slice)
+		if !ok {
+			return False
+		}
 		return BoolC(x.Obj == 0 && y.Obj == 0)
+	case Bytes:
+		return False // only comparable to nil; a []byte(s) conversion result is never nil
 	case MapRef:
 		return BoolC(x.Obj == b.(MapRef).Obj)
 	case ChanRef:
@@ -658,6 +663,9 @@ func (e *Engine) convert(st *State, sol *Solver, v Value, from, to types.Type) (
 		}
 		if sl, ok := tu.(*types.Slice); ok {
 			s := v.(*Term)
+			if b, ok := sl.Elem().Underlying().(*types.Basic); ok && b.Kind() == types.Uint8 && !s.Const {
+				return Bytes{S: s}, nil, true
+			}
 			if b, ok := sl.Elem().Underlying().(*types.Basic); ok && b.Kind() == types.Uint8 {
 				n, succ, ok := e.concretize(st, sol, StrLen(s, 64), 0, 64)
 				if !ok {
@@ -683,6 +691,9 @@ func (e *Engine) convert(st *State, sol *Solver, v Value, from, to types.Type) (
 				return Slice{Obj: id, Len: int(n), Cap: int(n)}, nil, true
 			}
 		}
+	}
+	if bv, ok := v.(Bytes); ok && isStringType(to) {
+		return bv.S, nil, true
 	}
 	if sl, ok := fu.(*types.Slice); ok && isStringType(to) {
 		s := v.(Slice)
@@ -1073,6 +1084,8 @@ func (e *Engine) callBuiltin(st *State, th *Thread, name string, args []Value, r
 			return ret(StrLen(x, 64))
 		case Slice:
 			return ret(BVC(uint64(x.Len), 64))
+		case Bytes:
+			return ret(StrLen(x.S, 64))
 		case MapRef:
 			if x.Obj == 0 {
 				return ret(BVC(0, 64))
